@@ -750,3 +750,200 @@ Proof.
 Qed.
 
 End NamesFacts.
+
+(* ====================================================================== *)
+(* 4. the composed statements                                             *)
+(* ====================================================================== *)
+
+Section Composition.
+Variable ty : Type.
+Variable val : Type.
+Variable enc : ty -> val -> json.
+Variable dec : ty -> json -> option val.
+
+Notation arg_ok := (arg_ok ty val enc dec).
+Notation args_ok := (args_ok ty val enc dec).
+Notation val_ok := (val_ok ty val enc dec).
+Notation args_json := (args_json ty val enc).
+Notation args_members := (args_members ty val enc).
+Notation client_params := (client_params ty val enc).
+Notation server_decode := (server_decode ty val dec).
+Notation presents := (presents ty val enc).
+Notation names_utf8 := (names_utf8 ty).
+Notation stub_request := (stub_request ty val enc).
+Notation server_receive := (server_receive ty val dec).
+Notation server_response := (server_response ty val enc).
+Notation client_result := (client_result ty val dec).
+Notation item_notification := (item_notification ty val enc).
+Notation client_item := (client_item ty val dec).
+
+Lemma parse_args_array ps args : args_ok ps args ->
+  parse_text (ser (JArr (args_json ps args))) = Some (JArr (args_json ps args)).
+Proof. intro H. destruct (array_parses ty val enc dec ps args H) as [W D]. apply parse_text_ser; assumption. Qed.
+
+Lemma parse_args_object ps args : names_utf8 ps -> args_ok ps args ->
+  parse_text (ser (JObj (args_members ps args))) = Some (JObj (args_members ps args)).
+Proof. intros U H. destruct (object_parses ty val enc dec ps args U H) as [W D]. apply parse_text_ser; assumption. Qed.
+
+(* what the stub encodes, the generated server closure decodes to the same tuple *)
+Theorem args_roundtrip k ps args :
+  args_ok ps args -> (k = PMap -> params_distinct ps = true /\ names_utf8 ps) ->
+  exists p, client_params k ps args = Builder.TOk p /\ server_decode ps (Params.params_new p) = DOk args.
+Proof.
+  intros H Hk. destruct ps as [|p0 ps0] eqn:Eps.
+  - inversion H; subst. exists None. split; reflexivity.
+  - rewrite <- Eps in *. assert (N : ps <> []) by (rewrite Eps; discriminate). destruct k.
+    + exists (Some (ser (JArr (args_json ps args)))). split; [apply (client_params_array ty val enc dec); assumption|].
+      rewrite (server_decode_array ty val dec ps _ (args_json ps args) N (parse_args_array ps args H)).
+      rewrite <- (app_nil_r (args_json ps args)). apply (collect_spec ty val enc dec), H.
+    + destruct (Hk eq_refl) as [D U].
+      exists (Some (ser (JObj (args_members ps args)))). split; [apply (client_params_map ty val enc dec); assumption|].
+      rewrite (server_decode_object ty val dec ps _ (args_members ps args) N (parse_args_object ps args U H)).
+      apply (decode_members_presents ty val enc dec); [exact H | apply (canonical_presents ty val enc dec); assumption].
+Qed.
+
+(* any array text whose elements are the arguments (any whitespace, surplus elements) *)
+Theorem positional_any_text ps args raw extra : args_ok ps args ->
+  parse_text raw = Some (JArr (args_json ps args ++ extra)) ->
+  server_decode ps (Params.params_new (Some raw)) = DOk args.
+Proof.
+  intros H P. destruct ps as [|p0 ps0] eqn:Eps; [inversion H; reflexivity|]. rewrite <- Eps in *.
+  rewrite (server_decode_array ty val dec ps raw _ ltac:(rewrite Eps; discriminate) P). apply (collect_spec ty val enc dec), H.
+Qed.
+
+(* trailing Option parameters: given (Some v / None as null), or left out of the array, or no params at all *)
+Theorem optional_tail pf af pt raw_full raw_short :
+  args_ok pf af -> Forall (fun p => p_opt p = true) pt ->
+  parse_text raw_full = Some (JArr (args_json (pf ++ pt) (af ++ repeat None (length pt)))) ->
+  parse_text raw_short = Some (JArr (args_json pf af)) ->
+  server_decode (pf ++ pt) (Params.params_new (Some raw_full)) = DOk (af ++ repeat None (length pt)) /\
+  server_decode (pf ++ pt) (Params.params_new (Some raw_short)) = DOk (af ++ repeat None (length pt)) /\
+  (pf = [] -> server_decode (pf ++ pt) (Params.params_new None) = DOk (af ++ repeat None (length pt))).
+Proof.
+  intros H Hp P1 P2.
+  assert (Hall : args_ok (pf ++ pt) (af ++ repeat None (length pt))).
+  { apply Forall2_app; [exact H|]. clear -Hp. induction Hp as [|p pt Hp _ IH]; [constructor|].
+    cbn [length repeat]. constructor; [exact Hp | exact IH]. }
+  split; [|split].
+  - rewrite <- (app_nil_r (args_json _ _)) in P1. apply (positional_any_text _ _ _ [] Hall P1).
+  - destruct (pf ++ pt) as [|q0 qs] eqn:Eq.
+    + apply app_eq_nil in Eq as [-> ->]. inversion H; subst. reflexivity.
+    + rewrite <- Eq in *. rewrite (server_decode_array ty val dec _ raw_short _ ltac:(rewrite Eq; discriminate) P2).
+      apply (collect_spec_omitted ty val enc dec); assumption.
+  - intros ->. inversion H; subst. cbn [app]. destruct pt as [|q0 qs] eqn:Eq; [reflexivity|]. rewrite <- Eq in *.
+    rewrite (server_decode_absent ty val dec pt ltac:(rewrite Eq; discriminate)). apply (collect_exhausted ty val dec), Hp.
+Qed.
+
+(* by name: any keys, any order, unknown members, absent optionals left out or null *)
+Theorem named_any_presentation ps args raw ms : args_ok ps args ->
+  parse_text raw = Some (JObj ms) -> presents ps args ms ->
+  server_decode ps (Params.params_new (Some raw)) = DOk args.
+Proof.
+  intros H P Hp. destruct ps as [|p0 ps0] eqn:Eps; [inversion H; reflexivity|]. rewrite <- Eps in *.
+  rewrite (server_decode_object ty val dec ps raw ms ltac:(rewrite Eps; discriminate) P).
+  apply (decode_members_presents ty val enc dec); assumption.
+Qed.
+
+(* ---------- the answer ---------- *)
+
+Theorem result_passthrough i rt v : WireFacts.wf_id i -> val_ok rt v ->
+  client_result rt (server_response i rt (HOk v)) = Some (i, COk v).
+Proof.
+  intros Wi (W & D & R). unfold MacroApi.client_result, MacroApi.server_response.
+  rewrite WireFacts.response_roundtrip; cbn [Wire.rs_id Wire.rs_payload]; [|exact Wi | apply WireFacts.raw_payload_ser, W].
+  rewrite parse_text_ser, R; [reflexivity | exact W | unfold depth_limit; lia].
+Qed.
+
+Theorem error_passthrough i rt e : WireFacts.wf_id i -> WireFacts.wf_errobj e ->
+  client_result rt (server_response i rt (HErr e)) = Some (i, CErr e).
+Proof.
+  intros Wi We. unfold MacroApi.client_result, MacroApi.server_response.
+  rewrite WireFacts.response_roundtrip; cbn [Wire.rs_id Wire.rs_payload]; [reflexivity | exact Wi | exact We].
+Qed.
+
+Theorem item_passthrough name sid it v : utf8_valid name = true -> WireFacts.wf_subid sid -> val_ok it v ->
+  client_item it (item_notification name sid it v) = Some (name, sid, Some v).
+Proof.
+  intros Un Ws (W & D & R). unfold MacroApi.client_item, MacroApi.item_notification.
+  rewrite (WireFacts.sub_notif_roundtrip name sid false _ Un Ws (WireFacts.raw_payload_ser _ W)).
+  rewrite parse_text_ser, R; [reflexivity | exact W | unfold depth_limit; lia].
+Qed.
+
+(* ---------- from the stub to the trait method ---------- *)
+
+Lemma nonnull_container v : match v with JArr _ | JObj _ => True | _ => False end -> WireFacts.nonnull (ser v).
+Proof. destruct v; try contradiction; intros _; reflexivity. Qed.
+
+Lemma request_reaches (a : api ty) (id : Wire.id) name k ps args b :
+  WireFacts.wf_id id -> utf8_valid name = true ->
+  args_ok ps args -> (k = PMap -> params_distinct ps = true /\ names_utf8 ps) ->
+  resolve a name = Some b -> params_of a b = Some ps ->
+  exists text, stub_request id name k ps args = Some text /\ server_receive a text = RCall b args.
+Proof.
+  intros Wi Un H Hk Hr Hp.
+  assert (Hshape : exists p, client_params k ps args = Builder.TOk p /\
+            server_decode ps (Params.params_new p) = DOk args /\
+            match p with Some t => WireFacts.raw_payload t /\ WireFacts.nonnull t | None => True end).
+  { destruct ps as [|p0 ps0] eqn:Eps.
+    - inversion H; subst. exists None. repeat split.
+    - rewrite <- Eps in *. assert (N : ps <> []) by (rewrite Eps; discriminate). destruct k.
+      + exists (Some (ser (JArr (args_json ps args)))). split; [apply (client_params_array ty val enc dec); assumption|]. split.
+        * rewrite (server_decode_array ty val dec ps _ (args_json ps args) N (parse_args_array ps args H)).
+          rewrite <- (app_nil_r (args_json ps args)). apply (collect_spec ty val enc dec), H.
+        * split; [apply WireFacts.raw_payload_ser, (array_parses ty val enc dec ps args H) | apply nonnull_container; exact I].
+      + destruct (Hk eq_refl) as [D U].
+        exists (Some (ser (JObj (args_members ps args)))). split; [apply (client_params_map ty val enc dec); assumption|]. split.
+        * rewrite (server_decode_object ty val dec ps _ (args_members ps args) N (parse_args_object ps args U H)).
+          apply (decode_members_presents ty val enc dec); [exact H | apply (canonical_presents ty val enc dec); assumption].
+        * split; [apply WireFacts.raw_payload_ser, (object_parses ty val enc dec ps args U H) | apply nonnull_container; exact I]. }
+  destruct Hshape as (p & Hc & Hd & Hw).
+  unfold MacroApi.stub_request. rewrite Hc. eexists. split; [reflexivity|].
+  unfold MacroApi.server_receive. rewrite WireFacts.request_roundtrip; cbn [Wire.rq_id Wire.rq_method Wire.rq_params]; try assumption.
+  rewrite Hr, Hp, Hd. reflexivity.
+Qed.
+
+Lemma params_of_method (a : api ty) i m : nth_error (a_methods a) i = Some m ->
+  params_of a (method_binding i m) = Some (m_params m).
+Proof.
+  intro H. unfold params_of, method_binding, nth_method, method_tag. cbn [Registry.b_kind Registry.b_tag].
+  rewrite Nat2N.id, H. destruct (m_kind m); reflexivity.
+Qed.
+
+Lemma params_of_sub (a : api ty) j s : nth_error (a_subs a) j = Some s ->
+  params_of a (sub_binding a j) = Some (s_params s).
+Proof.
+  intro H. unfold params_of, sub_binding, nth_sub, sub_tag. cbn [Registry.b_kind Registry.b_tag].
+  rewrite Nat2N.id. replace (length (a_methods a) + j <? length (a_methods a))%nat with false by (symmetry; apply Nat.ltb_ge; lia).
+  replace (length (a_methods a) + j - length (a_methods a))%nat with j by lia. rewrite H. reflexivity.
+Qed.
+
+(* the generated client method, called with any well-typed arguments, makes the trait method of that name run with them *)
+Theorem stub_call_reaches_method (a : api ty) i m (id : Wire.id) args :
+  NoDup (registered_names a) -> nth_error (a_methods a) i = Some m ->
+  WireFacts.wf_id id -> utf8_valid (rpc_identifier a (m_name m)) = true ->
+  args_ok (m_params m) args ->
+  (m_pkind m = PMap -> params_distinct (m_params m) = true /\ names_utf8 (m_params m)) ->
+  exists text, stub_request id (rpc_identifier a (m_name m)) (m_pkind m) (m_params m) args = Some text /\
+               server_receive a text = RCall (method_binding i m) args.
+Proof.
+  intros ND Hm Wi Un H Hk. destruct (names_resolve ty a ND) as (R1 & _ & _).
+  apply (request_reaches a id _ _ _ _ (method_binding i m)); try assumption.
+  - apply (R1 i m Hm).
+  - apply params_of_method, Hm.
+Qed.
+
+Theorem stub_call_reaches_subscription (a : api ty) j s (id : Wire.id) args :
+  NoDup (registered_names a) -> nth_error (a_subs a) j = Some s ->
+  WireFacts.wf_id id -> utf8_valid (rpc_identifier a (s_name s)) = true ->
+  args_ok (s_params s) args ->
+  (s_pkind s = PMap -> params_distinct (s_params s) = true /\ names_utf8 (s_params s)) ->
+  exists text, stub_request id (rpc_identifier a (s_name s)) (s_pkind s) (s_params s) args = Some text /\
+               server_receive a text = RCall (sub_binding a j) args.
+Proof.
+  intros ND Hs Wi Un H Hk. destruct (names_resolve ty a ND) as (_ & R2 & _).
+  apply (request_reaches a id _ _ _ _ (sub_binding a j)); try assumption.
+  - apply (R2 j s Hs).
+  - apply params_of_sub, Hs.
+Qed.
+
+End Composition.
